@@ -116,6 +116,8 @@ type Scn struct {
 	LedgerImgs map[string][]byte // optional: digest -> image (only if KeepImages)
 	KeepImages bool
 
+	User       any // per-scenario state of the running check
+	LedgerRoot []uint32 // seq root page in effect when the ledger entry was recorded
 	lastTick   int64
 	NoLedger   bool   // worker side: no source bookkeeping
 	Remote     Remote // if set, litestream ops are forwarded to a worker process
@@ -508,6 +510,7 @@ func (s *Scn) recordLedger() {
 	}
 	s.ledgerSet[d] = len(s.Ledger)
 	s.Ledger = append(s.Ledger, d)
+	s.LedgerRoot = append(s.LedgerRoot, s.SeqRoot)
 	if s.KeepImages {
 		s.LedgerImgs[d] = im.Data
 	}
